@@ -184,6 +184,7 @@ func checkRWReadDir(c *Ctx) {
 
 type crashSite struct {
 	key, kind, pos, detail string
+	foundGuarded           bool
 }
 
 // reviewedCrashSites: every panic, unchecked type assertion and map-element dereference of the mutable mount,
@@ -248,6 +249,7 @@ func enumCrashSites(p *Prog, f *FuncInfo) []crashSite {
 				return true
 			}
 			add("assert", x, "single-value type assertion "+exprString(x))
+			out[len(out)-1].foundGuarded = assertGuardedByFound(f, x)
 		case *ast.StarExpr:
 			if ix, ok := ast.Unparen(x.X).(*ast.IndexExpr); ok {
 				if _, isMap := info.TypeOf(ix.X).Underlying().(*types.Map); isMap {
@@ -329,6 +331,13 @@ func checkCrashInventory(c *Ctx) {
 			seen[s.key] = true
 			if why, ok := reviewedCrashSites[s.key]; ok {
 				c.ok("crash.inventory", s.key, s.pos, s.detail+": "+why)
+				continue
+			}
+			if s.kind == "assert" && s.foundGuarded {
+				// decided by class, wherever the code sits: the value comes from a Get of one of the two radix trees, the
+				// assertion is evaluated only where the found flag of that same Get holds, and the asserted type is the
+				// tree's value type (crash.value-types)
+				c.ok("crash.inventory", s.key, s.pos, s.detail+": guarded by the found flag of the same Get; the tree holds only this type (crash.value-types)")
 				continue
 			}
 			c.add("crash.inventory", s.key, s.pos, OK, s.detail+": NOT in the reviewed inventory")
@@ -563,4 +572,84 @@ func isErrorChan(t types.Type) bool {
 	}
 	ch, ok := t.Underlying().(*types.Chan)
 	return ok && isErrorType(ch.Elem())
+}
+
+// assertGuardedByFound: `v.(T)` where `v, found := <tree>.Get(k)` is v's only definition, <tree> is iNodeStore (T must be
+// *nodeEntry) or lookupTree (T must be lookupEntry), and the statement holding the assertion runs only where found holds
+// (inside `if found`, or after `if !found { return / panic }`).
+func assertGuardedByFound(f *FuncInfo, x *ast.TypeAssertExpr) bool {
+	info := f.Info()
+	id, ok := ast.Unparen(x.X).(*ast.Ident)
+	if !ok {
+		return false
+	}
+	v, ok := info.Uses[id].(*types.Var)
+	if !ok {
+		return false
+	}
+	defs := defsOfVarWithIndex(f, v)
+	if len(defs) != 1 || defs[0].index != 0 || defs[0].rhs == nil {
+		return false
+	}
+	call, ok := ast.Unparen(defs[0].rhs).(*ast.CallExpr)
+	if !ok || calleeID(info, call) != "github.com/hashicorp/go-immutable-radix.Tree.Get" {
+		return false
+	}
+	sel, ok := ast.Unparen(call.Fun).(*ast.SelectorExpr)
+	if !ok {
+		return false
+	}
+	tbl := describeExpr(f, sel.X, 0)
+	want := ""
+	switch {
+	case strings.HasSuffix(tbl, ".iNodeStore"):
+		want = "*pkg/fuse.nodeEntry"
+	case strings.HasSuffix(tbl, ".lookupTree"):
+		want = "pkg/fuse.lookupEntry"
+	}
+	at := info.TypeOf(x.Type)
+	got := namedTypeID(at)
+	if _, isPtr := at.(*types.Pointer); isPtr {
+		got = "*" + got
+	}
+	if want == "" || got != want {
+		return false
+	}
+	// the found flag: the second variable of the same definition
+	var found *types.Var
+	ast.Inspect(f.Decl.Body, func(n ast.Node) bool {
+		if as, ok := n.(*ast.AssignStmt); ok && len(as.Lhs) == 2 && len(as.Rhs) == 1 && ast.Unparen(as.Rhs[0]) == ast.Expr(call) {
+			if fid, ok := as.Lhs[1].(*ast.Ident); ok {
+				if fv, ok := info.Defs[fid].(*types.Var); ok {
+					found = fv
+				} else if fv, ok := info.Uses[fid].(*types.Var); ok {
+					found = fv
+				}
+			}
+		}
+		return true
+	})
+	if found == nil || len(defsOfVarWithIndex(f, found)) != 1 {
+		return false
+	}
+	var best *guardedAction
+	gas := guardedActions(f, f.Decl.Body)
+	for i := range gas {
+		ga := &gas[i]
+		if ga.Node == nil || !encloses(ga.Node, x.Pos()) {
+			continue
+		}
+		if best == nil || (ga.Node.End()-ga.Node.Pos()) < (best.Node.End()-best.Node.Pos()) {
+			best = ga
+		}
+	}
+	if best == nil {
+		return false
+	}
+	for _, a := range best.Atoms {
+		if !a.Neg && isVar(info, a.Expr, found) {
+			return true
+		}
+	}
+	return false
 }
